@@ -42,6 +42,8 @@ pub mod channel;
 pub(crate) mod channel;
 
 pub mod onion_utils;
+#[cfg(feature = "_verif")]
+pub mod verif_api;
 pub mod outbound_payment;
 pub mod wire;
 
